@@ -36,8 +36,7 @@ func (c sseDone) label() string {
 func runSSEDone(rep *vh.Reporter, lt *leakTracker, cs sseDone, url string, sc *Scripted, px *Proxy) {
 	rep.Progress(cs.label())
 	rep.Eval(1)
-	rep.SetAdd("fault_points", "S-sse|call|"+cs.class())
-	rep.SetAdd("pending_counts", fmt.Sprint(cs.Pending))
+	notePoint(rep, "S-sse", strings.SplitN(cs.class(), "@", 2)[0], "call:"+strings.SplitN(cs.class(), "@", 2)[1], cs.Pending)
 	prefix := nextNonce("d")
 	if px != nil {
 		px.SetPlans()
@@ -107,13 +106,13 @@ func runSSEDone(rep *vh.Reporter, lt *leakTracker, cs sseDone, url string, sc *S
 	if !ok {
 		rep.Inconclusive(cs.label() + ": Close did not return")
 	}
-	rep.Max("max_close_ms", took.Milliseconds())
+	rep.Max("close_ms", took.Milliseconds())
 	closeIdle()
+	if px != nil {
+		px.CloseConns() // the peer's side of every connection is gone as well
+	}
 	g := lt.after(cs.class(), cs.Pending, ncalls)
 	rep.Distinct(fmt.Sprintf("S-sse|%s|p=%d|conn+%d", cs.class(), cs.Pending, sign(g.Conn)))
-	if px != nil {
-		px.CloseConns()
-	}
 }
 
 func sign(n int) int {
@@ -260,7 +259,7 @@ func runPeers(rep *vh.Reporter, via, in *kit.Instance, px *Proxy, kind kit.Kind,
 	px.SetPlans()
 	if lt != nil {
 		rep.Eval(1)
-		rep.SetAdd("fault_points", who+"|"+class)
+		notePoint(rep, who, mode, "peers:streams+handlers", n)
 	}
 	prefix := nextNonce("v")
 	gate := "g-" + prefix
@@ -328,6 +327,9 @@ func runPeers(rep *vh.Reporter, via, in *kit.Instance, px *Proxy, kind kit.Kind,
 		streams = mcp.VerifListeningStreams(in.Server)
 	}
 	if lt != nil {
+		rep.Count("server_peers_vanished_with_running_handler", int64(got))
+		rep.Count("server_peers_vanished_with_pending_server_request", int64(pendingSrv))
+		rep.Count("server_peers_vanished_with_listening_stream", int64(streams))
 		rep.Max("server_handlers_running_when_peers_vanish", int64(got))
 		rep.Max("server_pending_requests_when_peers_vanish", int64(pendingSrv))
 		rep.Max("server_listening_streams_when_peers_vanish", int64(streams))
